@@ -51,6 +51,13 @@ RULE = ('correspondence: (1) fixup_one_index / fixup_slice_indices exhaustively 
         'cut() of windows and of singleton views (returned elements, tree and view bounds afterwards), replace/remove through '
         'singleton views; (P4) fixed interleaved call-argument shapes x real fields x every empty/one-element range x entry '
         'points; no-op requests (deleting an empty range) and FST.replace(code, one=False) on an element are entry points too; '
+        '(P7) Compare WITH its operators (`a < b == c.d > e()`): every slice delete leaving >= 2 operands and every single-operand '
+        'insert, op_side left/right (+ op) supplied through every option CHANNEL - call keyword, `with FST.options(...)`, '
+        'FST.set_options(...) - and every entry point the channel allows (del view[a:b], view[a:b] = None, view[i:i] = x take no '
+        'keywords); list model of operands and operators (a deleted operand takes the operator on the requested side, the only '
+        'possible side at the ends; an inserted operand brings its operator on that side); the form product deletes every range on '
+        'every ROTATION of the elements so that each element (incl. ones that are ambiguous when alone, e.g. a parenthesized tuple '
+        'as the sole with-item) gets to be the sole / first / last survivor; '
         '(P6) raw mode and the `to` option: put(code, i, field, raw=True[, to=element j]) and element.replace(code, raw=True[, '
         'to=...]) for every int index (negative, out of range) and every j >= i, and put_slice(code, a, b, field, raw=True) over '
         'every non-empty range in positive and negative/"end" forms, on 21 families incl. body/_body with and without docstring, '
@@ -189,6 +196,11 @@ def _sweep(ctx, per_family, per_optional, n_progs, per_prog, full_product=False)
     for lst in pmap(c03_edits.run_name_case, c03_edits.name_items(full_product)):
         n0 += len(lst)
         _report(ctx, lst)
+    # Compare with its operators, options given by keyword / `with FST.options()` / FST.set_options() (sequential: global state)
+    for it in c03_edits.compare_items():
+        lst = c03_edits.run_compare_product_case(it)
+        n0 += len(lst)
+        _report(ctx, lst)
     # raw mode and the `to` option: every index form x every `to` element, real and virtual fields
     for lst in pmap(c03_edits.run_raw_product_case, c03_edits.raw_items()):
         n0 += len(lst)
@@ -276,6 +288,11 @@ def replay(ctx, data):
     if w.get('name_args'):
         ci, field, doc, shape = w['name_args']
         for r in c03_edits.run_name_case((ci, field, doc, shape)):
+            if 'fail' in r and (r['a'], r['b'], r['new'], r['op']) == (w['a'], w['b'], w['new'], w['op']):
+                ctx.fail(f'C03|{r["sigop"]}|{r["fam"]}|{r["fail"]}', f'{r["op"]} on {r["fam"]}: {r["fail"]} {r.get("detail", "")}', r)
+        return
+    if w.get('compare_args'):
+        for r in c03_edits.run_compare_product_case(tuple(w['compare_args'])):
             if 'fail' in r and (r['a'], r['b'], r['new'], r['op']) == (w['a'], w['b'], w['new'], w['op']):
                 ctx.fail(f'C03|{r["sigop"]}|{r["fam"]}|{r["fail"]}', f'{r["op"]} on {r["fam"]}: {r["fail"]} {r.get("detail", "")}', r)
         return
